@@ -261,6 +261,13 @@ func corpus() []core.Case {
 			if digestAlgos[i].stream == nil {
 				continue
 			}
+			// history: every failure mode × leftovers of 0, 1, 5, 64, 200 bytes, then same and other helpers
+			for _, mode := range failModes {
+				for _, k := range []int{0, 1, 5, 64, 200} {
+					ops = append(ops, dghLine(&digestAlgos[i], mode, k, []byte("abc")))
+				}
+				ops = append(ops, dgLine(&digestAlgos[i], []byte("abc")), dgLine(&digestAlgos[(i+1)%6], []byte{}))
+			}
 			for _, n := range []int{4095, 4096, 4097, 8192, 32767, 32768, 32769} {
 				ops = append(ops, dgzLine(&digestAlgos[i], n, n+i))
 			}
@@ -277,6 +284,10 @@ func corpus() []core.Case {
 
 func dgLine(a *digestAlgo, in []byte) string {
 	return fmt.Sprintf("dg %s %s %s", a.name, hx(in), hx(a.sum(in)))
+}
+
+func dghLine(a *digestAlgo, mode string, k int, in []byte) string {
+	return fmt.Sprintf("dgh %s %s %d %s %s", a.name, mode, k, hx(in), hx(a.sum(in)))
 }
 
 func dgzLine(a *digestAlgo, n, seed int) string {
@@ -560,6 +571,14 @@ func genOp(r *core.Rand) string {
 	case 6:
 		return fmt.Sprintf("iprt %d", ipVal(r))
 	case 7:
+		if r.Chance(15) {
+			// history stream: failing call, then valid calls
+			k := []int{0, 1, 2, 3, 55, 56, 63, 64, 65, 127, 128, 129, 4095, 4096, 4097}[r.Intn(15)]
+			if r.Chance(30) {
+				k = r.Range(0, 200)
+			}
+			return dghLine(&digestAlgos[r.Intn(6)], failModes[r.Intn(len(failModes))], k, genBytes(r))
+		}
 		if r.Chance(25) {
 			// large stream: sizes around the plausible buffer sizes, ±2
 			n := streamSizes[r.Intn(len(streamSizes))] + r.Range(-2, 2)
